@@ -1663,6 +1663,9 @@ class Food(UnitConversions):
 
         # Check if the current food object is a monthly list
         if self.is_list_monthly():
+            # Ensure that the units of the two food objects are the same
+            assert self.units == other.units
+
             # Validate the list
             self.validate_if_list()
 
